@@ -24,7 +24,7 @@ def curated(rng):
     gs.append(P.mk_grammar("e1", [("P0", seq(grp("star", neg(lit("a"))), neg(grp("once", alt(lit("b"), lit("(")))), cap("A", "string", ref("Ident")), grp("opt", neg(grp("plus", lit("b"))))), [F("A", "string")])]))
     gs.append(P.mk_grammar("e2", [("P0", seq(look(False, seq(lit("a"), lit("b"))), look(True, alt(lit("a"), ref("Int"))), cap("A", "strings", grp("once", grp("plus", alt(ref("Ident"), ref("Int")))))), [F("A", "strings")])]))
     # literals needing escapes, typed literals
-    gs.append(P.mk_grammar("e3", [("P0", seq(lit('"'), lit("\\"), cap("A", "string", grp("once", alt(lit("a", "Ident"), lit("\n"), lit("é"), lit("C:\\")))), lit("|"), lit("'")), [F("A", "string")])]))
+    gs.append(P.mk_grammar("e3", [("P0", seq(lit('"'), lit("\\"), cap("A", "string", grp("once", alt(lit("a", "Ident"), lit("\n"), lit("é"), lit("C:\\")))), lit("|"), lit("'"), grp("opt", grp("once", alt(lit("%"), lit("%d%s"), lit("100%!"), lit("%%"))))), [F("A", "string")])]))
     # recursion, unions, several references to the same production
     gs.append(P.mk_grammar("e4", [("P0", seq(cap("A", "node", {"op": "prod", "p": "P1"}), grp("star", seq(lit("("), cap("B", "nodes", {"op": "prod", "p": "P1"}), lit(")")))), [F("A", "node", "P1"), F("B", "nodes", "P1")]),
                                   ("P1", alt(seq(lit("("), cap("K", "union", {"op": "union", "u": "U0"}), lit(")")), cap("V", "string", ref("Ident"))), [F("K", "union", "U0"), F("V", "string")]),
@@ -54,7 +54,7 @@ def run(pid, tier, args):
             g.pop("inputs", None)
             g["structure"] = True
         # hand-written Go types (anonymous / embedded structs): structure-independent clauses only
-        for sid in ("static-embedded", "static-anon-two", "static-anon-rec"):
+        for sid in ("static-embedded", "static-anon-two", "static-anon-rec", "static-alias"):
             gs.append({"id": sid, "structure": False, "root": "", "prods": [], "unions": {}})
         src = os.path.join(wd, "harness-src")
         codegen.emit([g for g in gs if g["structure"]], os.path.join(src, "gengram", "gen.go"))
